@@ -124,50 +124,61 @@ func oversizeCase(c *core.Case) {
 // ---------------------------------------------------------------------------------------
 
 type qIn struct {
-	Op    string // send | recv | stop | final
-	ID    int
-	Flush bool
+	Op      string // send | stop
+	ID      int
+	Pos     int    // position of the message in the channel's delivery order, -1 = never delivered
+	Variant string // flushstop | stop | receiver-stop
 }
 type qOut struct{ OK bool }
 type qState struct {
-	Q       string // ids, two bytes each
-	Stopped bool
+	N       int  // deliveries accounted for
+	Stopped bool // the stop has taken effect
+	Lost    bool // an accepted message that is never delivered has been enqueued
 }
 
-func idStr(id int) string { return string([]byte{byte(id >> 8), byte(id)}) }
-
-// queueModel: one channel = one FIFO queue from Send to onReceive. A send that returns
-// true enqueues, unless the connection has stopped (then it may go nowhere); a delivery
-// dequeues the head; after a FlushStop everything enqueued before it must have been
-// delivered by the end; after a plain Stop the tail may be lost, but never the middle.
+// queueModel: one channel = one FIFO queue from Send to onReceive, with unique values. The
+// delivery order is known, so a sequential history is legal iff
+//   - the accepted sends that are delivered are enqueued in exactly the delivery order
+//     (FIFO, no duplication, no reordering), before the stop takes effect;
+//   - an accepted send that is never delivered is enqueued after the stop took effect
+//     (FlushStop: everything accepted before it is flushed), or - for a plain Stop, where
+//     the connection is closed with messages still queued - anywhere, but then nothing
+//     enqueued after it is delivered (only a tail may be lost, never the middle);
+//   - a send that returned false enqueues nothing (its message being delivered is caught
+//     by the set check).
 var queueModel = porcupine.Model{
 	Init: func() interface{} { return qState{} },
 	Step: func(state, input, output interface{}) (bool, interface{}) {
 		st, in := state.(qState), input.(qIn)
 		switch in.Op {
 		case "send":
-			if !output.(qOut).OK || st.Stopped {
+			if !output.(qOut).OK {
 				return true, st
 			}
-			return true, qState{st.Q + idStr(in.ID), st.Stopped}
-		case "recv":
-			if len(st.Q) >= 2 && st.Q[:2] == idStr(in.ID) {
-				return true, qState{st.Q[2:], st.Stopped}
+			if in.Pos >= 0 {
+				if in.Pos != st.N || st.Lost || (st.Stopped && in.Variant != "receiver-stop") {
+					return false, st
+				}
+				st.N++
+				return true, st
 			}
-			return false, st
+			if in.Variant == "flushstop" && !st.Stopped {
+				return false, st
+			}
+			st.Lost = true
+			return true, st
 		case "stop":
-			return true, qState{st.Q, true}
-		case "final":
-			return !in.Flush || st.Q == "", st
+			st.Stopped = true
+			return true, st
 		}
 		return false, st
 	},
 	DescribeOperation: func(input, output interface{}) string {
 		in := input.(qIn)
 		if in.Op == "send" {
-			return fmt.Sprintf("send(%d)->%v", in.ID, output.(qOut).OK)
+			return fmt.Sprintf("send(msg %d, delivered at position %d)->%v", in.ID, in.Pos, output.(qOut).OK)
 		}
-		return fmt.Sprintf("%s(%d)", in.Op, in.ID)
+		return in.Op
 	},
 }
 
@@ -180,6 +191,9 @@ type stopPlan struct {
 
 func stopRaceCase(c *core.Case) {
 	run, r := c.Run, c.R
+	if strings.HasPrefix(c.Group, "race-") {
+		run.Count("cases_under_race_detector", 1)
+	}
 	pl := &stopPlan{Variant: []string{"flushstop", "flushstop", "stop", "receiver-stop"}[r.Intn(4)]}
 	cfg := &mconnCfg{Payload: []int{1 + r.Intn(64), 1 + r.Intn(1024)}[r.Intn(2)], FlushUs: []int{1, 100, 1000}[r.Intn(3)], Rate: 0, Secret: r.Intn(3) == 0, Chunk: []int{0, 1 + r.Intn(2000)}[r.Intn(2)]}
 	for i, n := 0, 1+r.Intn(3); i < n; i++ {
@@ -251,7 +265,6 @@ func stopRaceCase(c *core.Case) {
 		}
 	}
 	run.Eval(1)
-	final := p.clk.tick()
 	sent := flatten(logs)
 	recvd, errs, _ := p.b.snapshot()
 	_, aerrs, _ := p.a.snapshot()
@@ -266,36 +279,33 @@ func stopRaceCase(c *core.Case) {
 		return
 	}
 	// porcupine, per channel
-	ids := map[[32]byte]int{}
-	for i, s := range sent {
-		ids[s.hash] = i
-	}
 	lost := 0
 	for _, spec := range cfg.Channels {
-		var ops []porcupine.Operation
-		for i, s := range sent {
-			if s.Ch == spec.ID {
-				ops = append(ops, porcupine.Operation{ClientId: s.Sender, Input: qIn{Op: "send", ID: i}, Output: qOut{s.OK}, Call: 2 * s.Call, Return: 2 * s.Ret})
-			}
-		}
-		prev := int64(0)
+		pos := map[[32]byte]int{}
 		nrecv := 0
 		for _, d := range recvd {
 			if d.Ch == spec.ID {
-				ops = append(ops, porcupine.Operation{ClientId: k, Input: qIn{Op: "recv", ID: ids[d.hash]}, Output: qOut{true}, Call: 2*prev + 1, Return: 2 * d.Stamp})
-				prev = d.Stamp
+				pos[d.hash] = nrecv
 				nrecv++
 			}
 		}
+		var ops []porcupine.Operation
 		nOK := 0
-		for _, s := range sent {
-			if s.Ch == spec.ID && s.OK {
+		for i, s := range sent {
+			if s.Ch != spec.ID {
+				continue
+			}
+			p, ok := pos[s.hash]
+			if !ok {
+				p = -1
+			}
+			if s.OK {
 				nOK++
 			}
+			ops = append(ops, porcupine.Operation{ClientId: s.Sender, Input: qIn{Op: "send", ID: i, Pos: p, Variant: pl.Variant}, Output: qOut{s.OK}, Call: 2 * s.Call, Return: 2 * s.Ret})
 		}
 		lost += nOK - nrecv
-		ops = append(ops, porcupine.Operation{ClientId: k + 1, Input: qIn{Op: "stop"}, Output: qOut{true}, Call: 2 * stopCall, Return: 2 * stopRet})
-		ops = append(ops, porcupine.Operation{ClientId: k + 1, Input: qIn{Op: "final", Flush: pl.Variant == "flushstop"}, Output: qOut{true}, Call: 2*final + 1, Return: 2*final + 2})
+		ops = append(ops, porcupine.Operation{ClientId: k, Input: qIn{Op: "stop", Variant: pl.Variant}, Output: qOut{true}, Call: 2 * stopCall, Return: 2 * stopRet})
 		res := porcupine.CheckOperationsTimeout(queueModel, ops, 30*time.Second)
 		run.Count("porcupine_checks", 1)
 		run.Count("porcupine_operations", len(ops))
